@@ -590,6 +590,56 @@ func storeShapes(tier string) []storeShape {
 	return out
 }
 
+// checkFailedCreateUnreadable: a Create that returned an error did not create the id, so Read must fail and Exists
+// must say no ("reading an id that was never created returns an error and never an empty plan" - nor a partial one).
+func checkFailedCreateUnreadable(c createFaultCase) (rule, sig, msg string) {
+	defer func() {
+		if r := recover(); r != nil {
+			rule, sig, msg = "storage-panicked", c.Vault, fmt.Sprintf("%s: panic: %v", c, r)
+		}
+	}()
+	ctx := bctx.Background()
+	reg := createRegistry()
+	f := factoryByName(c.Vault)
+	v, err := f.new(ctx, reg)
+	if err != nil {
+		return "harness", "vault", err.Error()
+	}
+	defer v.Close(ctx)
+	p := c.Shape.build()
+	n := 0
+	where := ""
+	for _, o := range listObjects(p) {
+		if a, ok := o.obj.(*workflow.Action); ok {
+			if n == c.Pos {
+				a.Req = BadReq{Arg: "x", C: make(chan int)}
+				a.Plugin, where = "bad", "sequence-action"
+				if o.inChecks {
+					a.Plugin, where = "badchk", "check-action"
+				}
+			}
+			n++
+		}
+	}
+	if where == "" {
+		return "", "", ""
+	}
+	if err := v.Create(ctx, p); err == nil {
+		return "", "", "" // C14's concern
+	}
+	if got, err := v.Read(ctx, p.ID); err == nil {
+		nobj := 0
+		if got != nil {
+			nobj = len(listObjects(got))
+		}
+		return "never-created-id-readable", c.Vault + ":" + where, fmt.Sprintf("%s: Create returned an error, yet Read of that id returns no error and a plan of %d objects (submitted: %d)", c, nobj, len(listObjects(p)))
+	}
+	if ok, err := v.Exists(ctx, p.ID); err == nil && ok {
+		return "never-created-id-exists", c.Vault + ":" + where, fmt.Sprintf("%s: Create returned an error, yet Exists of that id is true", c)
+	}
+	return "", "", ""
+}
+
 func enumC13(env *EnumEnv, it *WorkItem) *EnumResult {
 	res := &EnumResult{Exhaustive: true}
 	reported := map[string]bool{}
@@ -655,7 +705,37 @@ func enumC13(env *EnumEnv, it *WorkItem) *EnumResult {
 			}
 		}
 		rec(nil)
-		res.Notes = append(res.Notes, fmt.Sprintf("%s: %d shapes, update alphabet of %d operations on the small plan, all sequences up to depth %d", f.name, len(storeShapes(env.Tier)), len(ops), depth))
+		// (3) an id whose Create FAILED was never created: an unencodable request at every action position of every shape
+		nfail := 0
+		for _, sh := range storeShapes(env.Tier) {
+			if sh.Variant != 0 && env.Tier != "thorough" {
+				continue
+			}
+			nact := 0
+			for _, o := range listObjects(sh.build()) {
+				if _, ok := o.obj.(*workflow.Action); ok {
+					nact++
+				}
+			}
+			for pos := 0; pos < nact; pos++ {
+				idx++
+				if idx%it.NShards != it.Shard {
+					continue
+				}
+				res.Evaluations++
+				res.Distinct++
+				nfail++
+				c := createFaultCase{Vault: f.name, Shape: sh, Pos: pos}
+				if rule, sig, msg := checkFailedCreateUnreadable(c); rule != "" {
+					k := rule + "|" + sig
+					if !reported[k] {
+						reported[k] = true
+						res.Found = append(res.Found, &EnumFound{V: Violation{Property: "C13", Rule: rule, Signature: sig, Msg: msg}, Input: map[string]any{"failedCreate": c}})
+					}
+				}
+			}
+		}
+		res.Notes = append(res.Notes, fmt.Sprintf("%s: %d shapes, update alphabet of %d operations on the small plan, all sequences up to depth %d; %d failed Creates (this shard)", f.name, len(storeShapes(env.Tier)), len(ops), depth, nfail))
 	}
 	if cosmosFactory == nil {
 		res.Notes = append(res.Notes, "cosmosdb (over its fake client) was not available in this build")
@@ -668,12 +748,21 @@ func init() {
 		ID:    "C13",
 		Level: "exploration",
 		Rule: "plan shapes from a grammar (1-2 blocks x 1-2 sequences x 1-2 actions x {no checks, each single group at plan level, each single group at block level, all ten groups}) x field variants (meta, group id, keys, delays, concurrency, tolerance -1/0/2, timeouts, retries, two typed request types); " +
-			"for every shape: Create, Read, every single update kind on every object, Read of a never created id, Delete, Read of the deleted id; on a small plan ALL sequences of updates up to depth 3 (4) over {Running, Completed, Failed, reset, attempts [ok] / [err] / [err(wrapped), ok] / cleared} x every object, with a Read after every step; " +
+			"for every shape: Create, Read, every single update kind on every object, Read of a never created id, Delete, Read of the deleted id; on a small plan ALL sequences of updates up to depth 3 (4) over {Running, Completed, Failed, reset, attempts [ok] / [err] / [err(wrapped), ok] / cleared} x every object, with a Read after every step; a Create that FAILS (request that cannot be encoded at every action position of every shape) leaves the id unreadable and non-existent; " +
 			"oracle: structural equality (nanosecond times, typed requests/responses, wrapped errors, order) with a reference copy mutated in lock step; for both vaults when the CosmosDB fake is available; distinct_nontrivial = cases other than the minimal plan without updates",
 		Assumptions: []string{"CosmosDB is exercised over the package's own fake client only; a disagreement there counts only when traced to package code", "for CosmosDB the order of the actions inside a group is not checked: it comes from the service evaluating ORDER BY c.pos, which the fake client ignores", "an empty non-nil Meta slice and a nil one are the same definition"},
 		Items:       func(tier string) []WorkItem { return shardItems("C13", 16) },
 		Enum:        enumC13,
 		ReplayInput: func(env *EnumEnv, raw []byte) []*Violation {
+			var fc struct {
+				FailedCreate *createFaultCase `json:"failedCreate"`
+			}
+			if err := jsonUnmarshal(raw, &fc); err == nil && fc.FailedCreate != nil {
+				if rule, sig, msg := checkFailedCreateUnreadable(*fc.FailedCreate); rule != "" {
+					return []*Violation{{Property: "C13", Rule: rule, Signature: sig, Msg: msg}}
+				}
+				return nil
+			}
 			var c storeCase
 			if err := jsonUnmarshal(raw, &c); err != nil {
 				return []*Violation{{Property: "C13", Rule: "bad-input", Msg: err.Error()}}
